@@ -76,7 +76,7 @@ class Harness(cm.BaseA):
         parts = []
         for k in ("E", "F"):
             for n, lw in sorted(W[k]["lw"].items()):
-                parts.append(lw._volumes.tobytes())
+                parts.append(lw.volumes.astype(float).tobytes())
                 for c in sorted(lw.composition):
                     parts += [c.encode(), lw.composition[c].tobytes()]
         return b"|".join(parts) + bytes([W["failed"]])
@@ -99,12 +99,13 @@ class Harness(cm.BaseA):
                     V.append(("C16/exception-class", f"EVO raised {type(xe).__name__}, Fluent raised {type(xf).__name__}"))
         for n in W["E"]["lw"]:
             a, b = W["E"]["lw"][n], W["F"]["lw"][n]
-            if a._volumes.tobytes() != b._volumes.tobytes():
+            if a.volumes.astype(float).tobytes() != b.volumes.astype(float).tobytes():
                 V.append(("C16/volumes", f"{n}: EVO {a.volumes.tolist()} vs Fluent {b.volumes.tolist()}"))
             if set(a.composition) != set(b.composition) or any(a.composition[k].tobytes() != b.composition[k].tobytes() for k in a.composition):
                 V.append(("C16/composition", f"{n}: compositions differ"))
-            if a._labels != b._labels or len(a._history) != len(b._history) or any(not np.array_equal(x, y) for x, y in zip(a._history, b._history)):
-                V.append(("C16/history", f"{n}: EVO {a._labels} vs Fluent {b._labels}"))
+            ha, hb = a.history, b.history
+            if [l for l, _ in ha] != [l for l, _ in hb] or any(not np.array_equal(x, y) for (_, x), (_, y) in zip(ha, hb)):
+                V.append(("C16/history", f"{n}: EVO {[l for l, _ in ha]} vs Fluent {[l for l, _ in hb]}"))
         for k in ("E", "F"):
             for d in cm.callers_arrays_unchanged(W[k], config):
                 V.append(("C16/volumes", d))
